@@ -7,6 +7,7 @@ import (
 	"github.com/robfig/soy/soyhtml"
 	"regexp"
 	"sort"
+	"strconv"
 	"strings"
 	"unicode/utf8"
 
@@ -125,6 +126,11 @@ func checkC14(c *Ctx) {
 		{"param value", func(L string) bool { return true }, func(L string) (string, data.Map) {
 			return "{call .echo}{param p: " + quoteSoy(L) + " /}{/call}", nil
 		}},
+		// text that is not output at all: whatever the generator does with a description (a comment in
+		// the generated code, say), the code stays a valid script that returns the message
+		{"msg description", func(L string) bool { return utf8.ValidString(L) && len(L) < 200 }, func(L string) (string, data.Map) {
+			return "{msg desc=" + strconv.Quote(L) + " meaning=" + strconv.Quote("m"+L) + "}M{/msg}", nil
+		}},
 	}
 	var lits []string
 	for b := 1; b < 128; b++ {
@@ -138,6 +144,8 @@ func checkC14(c *Ctx) {
 	}
 	lits = append(lits, "", "</script>", "<!--", "]]>", "é", "日本", "\u0085", "\ufeff", "a\\", "\\'", "\\\"", "\\n", "'+alert(1)+'", "\"+x+\"", "${x}", "`", "a'b\"c\\d", strings.Repeat("ab'\"\\\n<", 1500), "\x7f", "\x01\x02", "line1\nline2", "tab\there",
 		// characters outside the basic plane and characters that are not printable (an escaper must spell them so that the engine reads them back)
+		// text that reads like a JavaScript escape sequence
+		"\\u003C", "\\u003E", "\\u0026", "\\u003D", "\\u0027", "\\u0022", "\\x3C", "\\x3c", "a\\u003Cb\\u003E", "\\\\u003C", "\\u2028", "\\074", "\\u{3C}",
 		"\U0001F600", "\U000E0001", "a\U000F0000b", "\U0010FFFF", "\u200b", "\u00ad", "\ufffe", "x\u0600y", "\U0001D11E\U000E0020")
 	// long non-ASCII runs at shifting byte offsets (a generator that chunks long text must not cut a character)
 	for off := 0; off < 4; off++ {
@@ -209,6 +217,10 @@ func checkC14(c *Ctx) {
 			} else if o.name == "map lookup in a let value" || o.name == "nested map lookups in a param value" {
 				if out != "pre"+L && utf8.ValidString(L) {
 					c.Violate("every string that originates in the template denotes exactly the original characters", "mismatch", "literal:"+sig, cs, clipq("pre"+L), clipq(out))
+				}
+			} else if o.name == "msg description" {
+				if out != "M" {
+					c.Violate("every string that originates in the template denotes exactly the original characters", "mismatch", "literal:"+sig, cs, "M", clipq(out))
 				}
 			} else if o.name == "css name after a prefix expression" {
 				if out != "pre-"+L && utf8.ValidString(L) {
